@@ -26,6 +26,12 @@ def variants(pid):
         diff = os.path.join(VERIF, "selftest", "fixes", m.group(2) + ".diff")
         if r and os.path.exists(diff):
             out.append({"name": "fix:" + m.group(2), "patch": diff, "reverse": True, "rules": [r.group(1)], "what": m.group(3)[:120]})
+    own = os.path.join(VERIF, "selftest", "own", "index.json")
+    if os.path.exists(own):
+        # my own single-point mutations, kept only to prove that a rule without an independent seed has teeth
+        for o in json.load(open(own)):
+            if pid in o["properties"]:
+                out.append({"name": "own:" + o["file"][:-5], "patch": os.path.join(VERIF, "selftest", "own", o["file"]), "reverse": False, "rules": o["rules"], "what": o["what"]})
     sdir = os.path.join(VERIF, "seeded")
     for d in sorted(os.listdir(sdir)) if os.path.isdir(sdir) else []:
         mp = os.path.join(sdir, d, "meta.json")
